@@ -740,11 +740,6 @@ class Bf3File:
     def set_config(
         self, config: dict, additional_tvl_blocks: Iterable[bytes] = ()
     ) -> None:
-        try:
-            del self.components[self._get_config_ndx()]
-        except KeyError:
-            pass
-
         tlvcfg_list = conf_dict_to_tlv(config)
 
         if additional_tvl_blocks:
@@ -771,6 +766,10 @@ class Bf3File:
             len(tlvcfg_blob),
             encrypt_by_session_key=True,
         )
+        try:
+            del self.components[self._get_config_ndx()]
+        except KeyError:
+            pass
         self.components.append(bf3_comp)
 
     def derive_comments_from_config(self, config: ConfDict) -> None:
